@@ -582,4 +582,17 @@ def defaultEps (sqrt : α → α) (tiny : α) (ms : List (Mod α)) : Option (α 
   | none => none
   | some d => some (d * tiny, sqrt (d * tiny))
 
+/-- `Netlist(tree)` in a process where NO tolerance is defined yet (`Rectangle.epsilon_defined()` false): the netlist
+    installs the tolerance it proposes (`defaultEps`, computed after the centres and before the overlap check) and the
+    overlap check and `create_stog` run under it.  `stogOf ε εA` = the STOG step under the tolerances `ε`, `εA`.
+    (`math.inf` when the netlist has no rectangle and no positive area: then nothing below uses the tolerance.) -/
+def loadFresh (sqrt : α → α) (tiny : α) (stogOf : α → α → List (NRect α) → List (NRect α)) (t : YVal α) :
+    Except Err (Netlist α) :=
+  match parseDoc t with
+  | .error e => .error e
+  | .ok (ms, es) =>
+    match defaultEps sqrt tiny ms with
+    | some (ε, εA) => finish (stogOf ε εA) εA ms es
+    | none => finish (stogOf zero zero) zero ms es
+
 end FV.NL
